@@ -10,9 +10,8 @@ INVS = ["PolygonOrderFree", "PolyhedronOrderFree", "MeasuresPositive", "Emit"]
 
 def run(res, pool, tier, seed):
     engine.run_jobs(res, buildcase.jobs(tier, seed + 17, INVS), pool)
-    if tier != "quick":
-        import traces
-        traces.run_for(res, ["unit_tests", "driver"], {"C06"}, seed=seed + 6, nsessions=2500)
+    import traces
+    traces.run_for(res, ["unit_tests", "driver"], {"C06"}, seed=seed + 6, nsessions=250 if tier == "quick" else 2500)
 
 
 def replay_case(case, tag, rng, tier):
